@@ -22,12 +22,13 @@ Exact(i) == P(i).exact = 1                           \* integer-grid pair: the f
 CatPart(i) ==
     CASE R.cat = "abs" -> AbsCat(P(i).u, P(i).v, R.de)
       [] R.cat = "pre" -> PreCat(P(i).u, P(i).v, R.M, R.de)
+      [] R.cat = "lam" -> LamCat(P(i).u, P(i).v, R.M, R.de)
       [] OTHER -> RZero
 Expected(i) ==
     CASE R.cls = "pos" -> Pos(P(i).u, P(i).v, R.de)
       [] R.cls = "cat" -> CatPart(i)
       [] R.cls = "comb" -> Comb(R.alpha, R.beta, Pos(P(i).u, P(i).v, R.de), CatPart(i))
-HasFormula == R.cls = "pos" \/ R.cat \in {"abs", "pre"}
+HasFormula == R.cls = "pos" \/ R.cat \in {"abs", "pre", "lam"}
 
 ObsFormula == HasFormula => \A i \in 1..NP : Exact(i) => NearR(P(i).d, Expected(i))
 ObsCompiledFormula == HasFormula => \A i \in 1..NP : Exact(i) => NearR(P(i).comp, Expected(i))
